@@ -547,8 +547,19 @@ pub fn settle(r: Check, st: &mut Stats) -> Check {
             st.class(&v.message);
             Ok(())
         }
+        // a child process that ran into its time limit is never a violation (a loaded machine, a
+        // heavier but correct formula): the case is not judged
+        Err(v) if is_timeout(&v.message) => {
+            st.discarded += 1;
+            st.class("time-out of a spawned tool (not judged)");
+            Ok(())
+        }
         other => other,
     }
+}
+
+pub fn is_timeout(message: &str) -> bool {
+    message.contains("timed_out=true") || (message.contains("HARNESS:") && message.contains("timed out"))
 }
 
 pub fn guarded<F: FnOnce() -> Check>(case: &Value, f: F) -> Check {
